@@ -21,7 +21,11 @@ PROP = 'C15'
 
 PER_GROUP = 10          # mutants derived from one base document
 OUT_SHARE = 2           # of which: dedicated single-fault out-event cases (20 %)
-CANARY_OK = (50, 100, 200)      # nested namespaces that must simply parse
+CANARY_OK = (50, 100, 200, 300, 400)      # nested namespaces that must simply parse
+# values the parser skips (a stray list, the contents of an element of unknown class, an extra
+# key), nested hundreds of levels deep: skipped means not looked into
+CANARY_SKIPPED = [(kind, depth) for kind in ('stray-list', 'unknown-element', 'extra-key')
+                  for depth in (300, 600, 900)]
 CANARY_DEEP = (500, 600)        # 500: Python recursion; 600: beyond the JSON decoder's depth limit
 
 KNOWN_CLASSES = ['root', 'namespace', 'interface', 'component', 'system', 'foreign', 'enum',
@@ -434,6 +438,23 @@ def fixed_documents() -> list:
     return docs
 
 
+def skipped_canary_text(kind: str, depth: int, bad_out_event: bool = False) -> str:
+    """A small well-formed document that holds one value nested `depth` levels deep at a place
+    the parser skips; with `bad_out_event` an interface next to it that must be refused."""
+    deep = '[' * depth + ']' * depth
+    itf = ('{"<class>":"interface","name":{"<class>":"scope_name","ids":["I"]},'
+           '"types":{"<class>":"types","elements":[]},"events":{"<class>":"events","elements":['
+           '{"<class>":"event","name":"e","direction":"out","signature":{"<class>":"signature",'
+           '"type_name":{"<class>":"scope_name","ids":["%s"]},"formals":{"<class>":"formals",'
+           '"elements":[]}}}]}}' % ('bool' if bad_out_event else 'void'))
+    ext = ('{"<class>":"extern","name":{"<class>":"scope_name","ids":["x"]},'
+           '"value":{"<class>":"data","value":"int"}%s}' % (',"extra":' + deep if kind == 'extra-key' else ''))
+    extra = {'stray-list': deep, 'unknown-element': '{"<class>":"bogus","payload":' + deep + '}',
+             'extra-key': None}[kind]
+    elements = [e for e in (ext, extra, itf) if e]
+    return '{"<class>":"root","working-directory":"/w","elements":[' + ','.join(elements) + ']}'
+
+
 def canary_text(depth: int) -> str:
     """`depth` nested single-identifier namespaces with one extern at the bottom, built as text
     (json.dumps itself would recurse)."""
@@ -620,6 +641,23 @@ def eval_case(case: dict) -> dict:
            | {'canary_depth': n, 'route'}"""
     common.import_dznpy()
     route = case.get('route') or 'str'
+    if 'canary_kind' in case:
+        depth, kind = int(case['canary_depth']), case['canary_kind']
+        bad = bool(case.get('bad_out_event'))
+        text = skipped_canary_text(kind, depth, bad)
+        mutations = [f'a value nested {depth} levels deep where the parser skips it ({kind})']
+        res = judge(text, route, None, case, mutations, ns_depth=0)
+        res['counts']['deep_skipped_values_checked'] = 1
+        if bad:
+            res['counts']['deep_skipped_values_next_to_an_invalid_out_event'] = 1
+            if res['outcome'] == 'returned':
+                res['violations'].append({
+                    'mechanism': 'out-event-accepted:valued-out-event',
+                    'detail': {'mutations': mutations, 'route': route}, 'case': case})
+        res['digest'] = f'canary:{kind}:{depth}:{bad}:{route}'
+        res['nontrivial'] = True
+        res['sample'] = {'canary_kind': kind, 'canary_depth': depth, 'outcome': res['outcome']}
+        return res
     if 'canary_depth' in case:
         depth = int(case['canary_depth'])
         text = canary_text(depth)
@@ -709,7 +747,12 @@ def _slim(res: dict, keep_sample: bool) -> dict:
 def _worker(item):
     what = item[0]
     out = []
-    if what == 'canary':
+    if what == 'skipped':
+        for bad in (False, True):
+            case = {'canary_kind': item[1], 'canary_depth': item[2], 'route': item[3],
+                    'bad_out_event': bad}
+            out.append((case, _slim(eval_case(case), False)))
+    elif what == 'canary':
         case = {'canary_depth': item[1], 'route': item[2]}
         out.append((case, _slim(eval_case(case), item[1] in (200, 500))))
     elif what == 'fixed':
@@ -743,10 +786,12 @@ def main(tier: str) -> int:
     n_mutants = 20000 if tier == 'quick' else 500000
     groups = n_mutants // PER_GROUP
     items = [('canary', d, 'str') for d in CANARY_OK + CANARY_DEEP] + [('fixed',)]
+    items += [('skipped', kind, depth, 'bytes' if depth == 600 else 'str')
+              for kind, depth in CANARY_SKIPPED]
     items += [('group', run.seed, g) for g in range(groups)]
     run.require('outcome_returned', 'outcome_DznJsonError', 'outcome_NamespaceIdsTypeError',
                 'outevent_refusals_checked', 'canary_depths_checked', 'base_parsed',
-                'fixed_documents', 'parsed_with_verbose_True', 'parsed_with_verbose_False',
+                'fixed_documents', 'deep_skipped_values_checked', 'parsed_with_verbose_True', 'parsed_with_verbose_False',
                 'refused_documents_mended_in_place_then_reparsed')
     for _item, out in run.pmap(_worker, items, chunksize=4 if tier == 'quick' else 25):
         if isinstance(out, dict):          # harness error of a whole work item
